@@ -174,7 +174,7 @@ class EvolvableLSTM(EvolvableModule):
 
     def get_output_dense(self) -> torch.nn.Module:
         """Returns output layer of neural network."""
-        return self.model[f"{self.name}_linear_output"]
+        return self.model[f"{self.name}_lstm_output"]
 
     @mutation(MutationType.LAYER)
     def add_layer(self) -> None:
